@@ -94,11 +94,14 @@ class Mini:
         missing = [p for p in params if p not in env]
         if missing:
             raise AnalysisError(f"miniinterp: {fn.name}: parameters {missing} not supplied")
+        gen = _is_generator(fn)
+        if gen:
+            env["__yields__"] = []
         try:
             self.block(fn.body, env)
         except _Return as r:
-            return r.value
-        return None
+            return _GenList(env["__yields__"]) if gen else r.value
+        return _GenList(env["__yields__"]) if gen else None
 
     def call_bound(self, fn: ast.FunctionDef, self_obj: Any, args, kwargs, level: int = 0) -> Any:
         params = [a.arg for a in fn.args.args]
@@ -353,12 +356,17 @@ class Mini:
             sub = dict(env)
             sub.pop("__nonlocal__", None)
             sub["__outer__"] = env
+            gen = _is_generator(fn)
+            if gen:
+                sub["__yields__"] = []
+            else:
+                sub.pop("__yields__", None)
             try:
                 sub.update(bound)
                 interp.block(fn.body, sub)
             except _Return as r:
-                return r.value
-            return None
+                return _GenList(sub["__yields__"]) if gen else r.value
+            return _GenList(sub["__yields__"]) if gen else None
         return f
 
     def ev(self, e: ast.AST, env: Dict[str, Any]) -> Any:
@@ -436,6 +444,15 @@ class Mini:
             return True
         if isinstance(e, ast.IfExp):
             return self.ev(e.body if self.truth(self.ev(e.test, env)) else e.orelse, env)
+        if isinstance(e, (ast.Yield, ast.YieldFrom)):
+            # generator functions are run eagerly: the yielded values are collected and handed out as a finite sequence
+            if "__yields__" not in env:
+                raise AnalysisError("miniinterp: yield outside a function")
+            if isinstance(e, ast.Yield):
+                env["__yields__"].append(self.ev(e.value, env) if e.value is not None else None)
+            else:
+                env["__yields__"].extend(self.iterate(self.ev(e.value, env), e))
+            return None
         if isinstance(e, ast.Subscript):
             obj = self.ev(e.value, env)
             key = self.slice_of(e.slice, env)
@@ -628,6 +645,18 @@ class _Super:
             raise AttributeError(name)
         interp = object.__getattribute__(self._obj, "_mi_interp")
         return lambda *a, **k: interp.call_bound(fn, self._obj, a, k, level=lvl)
+
+
+def _is_generator(fn) -> bool:
+    stack = list(getattr(fn, "body", []))
+    while stack:
+        n = stack.pop()
+        if isinstance(n, (ast.Yield, ast.YieldFrom)):
+            return True
+        if isinstance(n, (ast.FunctionDef, ast.Lambda, ast.ClassDef)):
+            continue
+        stack.extend(ast.iter_child_nodes(n))
+    return False
 
 
 class _GenList(list):
